@@ -36,7 +36,8 @@ MANIFEST = dict(
          "h_cq correspondence (chunk layout, counters, content CRC over the bytes that can actually be read, "
          "temp-dir listing and descriptor count after every operation), kernel file semantics (a failed write "
          "writes nothing, a short write a prefix, unlinked files stay readable through open descriptors, open() of "
-         "an existing name succeeds). Outside the model: splice()/sendfile()/mmap paths, read faults (pread/open/"
+         "an existing name succeeds). Outside the model: splice() results other than a complete transfer and the socket "
+         "variant of the splice path (the pipe variant is modelled: op sp), sendfile()/mmap paths, read faults (pread/open/"
          "dup errors), close() failures, chunkqueue_set_tempdirs() during the life of a queue, buffers >= 4 GiB; "
          "two queues; caller obligations of chunk.h (file ranges inside the file, mark_written <= length, "
          "compact_mem on MEM-only queues) are hypotheses (OpOK) resp. harness guards. The model describes the "
